@@ -14,6 +14,7 @@ import (
 
 	"github.com/database64128/shadowsocks-go/conn"
 	"github.com/database64128/shadowsocks-go/router"
+	"github.com/database64128/shadowsocks-go/verifhook"
 	"github.com/database64128/shadowsocks-go/zerocopy"
 	"go.uber.org/zap"
 	"golang.org/x/sys/unix"
@@ -263,6 +264,7 @@ func (s *UDPSessionRelay) recvFromServerConnRecvmmsg(ctx context.Context, lnc *u
 				natConnSendCh := make(chan *sessionQueuedPacket, lnc.sendChannelCapacity)
 				entry.natConnSendCh = natConnSendCh
 				s.table[csid] = entry
+				verifhook.At("relay.recv.afterInsert", s, csid)
 
 				s.wg.Go(func() {
 					var sendChClean bool
@@ -272,6 +274,7 @@ func (s *UDPSessionRelay) recvFromServerConnRecvmmsg(ctx context.Context, lnc *u
 						close(natConnSendCh)
 						delete(s.table, csid)
 						s.mu.Unlock()
+						verifhook.At("relay.session.cleanup", s, csid)
 
 						if !sendChClean {
 							for queuedPacket := range natConnSendCh {
@@ -354,6 +357,7 @@ func (s *UDPSessionRelay) recvFromServerConnRecvmmsg(ctx context.Context, lnc *u
 						return
 					}
 
+					verifhook.At("relay.init.beforeSwap", s, csid)
 					oldState := entry.state.Swap(natConn.UDPConn)
 					if oldState != nil {
 						natConn.Close()
@@ -547,6 +551,7 @@ main:
 			burstBatchSize = max(burstBatchSize, n)
 		}
 
+		verifhook.At("relay.uplink.afterSend", s, uplink.csid)
 		if err := uplink.natConn.SetReadDeadline(time.Now().Add(uplink.natTimeout)); err != nil {
 			uplink.logger.Error("Failed to set read deadline on natConn",
 				zap.Stringer("clientAddress", &queuedPacket.clientAddrPort),
@@ -557,6 +562,7 @@ main:
 				zap.Error(err),
 			)
 		}
+		verifhook.At("relay.uplink.afterRearm", s, uplink.csid)
 
 		qpvecn := qpvec[:count]
 
@@ -648,6 +654,7 @@ func (s *UDPSessionRelay) relayNatConnToServerConnSendmmsg(downlink sessionDownl
 			)
 			continue
 		}
+		verifhook.At("relay.downlink.afterRecv", s, downlink.csid)
 
 		if caip := downlink.clientAddrInfo.Load(); caip != clientAddrInfop {
 			clientAddrInfop = caip
